@@ -14,13 +14,14 @@ import (
 
 // Seed is one starting point of the fault plan.
 type Seed struct {
-	ID   int    `json:"id"`
-	Name string `json:"name"`
-	Dec  string `json:"dec"`  // decoder the mutants are handed to
-	Len  int    `json:"len"`  // length of the seed in bytes
-	MLen int    `json:"mlen"` // mutations and truncations are applied below this offset
-	NTab int    `json:"ntab"` // whole fonts: number of tables (plan kind "drop"), else 0
-	NGid int    `json:"ngid"` // whole fonts: number of glyph-id-valued words (plan kind "pair"), else 0
+	ID    int    `json:"id"`
+	Name  string `json:"name"`
+	Dec   string `json:"dec"`   // decoder the mutants are handed to
+	Len   int    `json:"len"`   // length of the seed in bytes
+	MLen  int    `json:"mlen"`  // mutations and truncations are applied below this offset
+	NTab  int    `json:"ntab"`  // whole fonts: number of tables (plan kind "drop"), else 0
+	NGid  int    `json:"ngid"`  // whole fonts: number of glyph-id-valued words (plan kind "pair"), else 0
+	NDict int    `json:"ndict"` // CFF seeds: number of 5-byte offset/size DICT operands (plan kind "dict"), else 0
 	// Formats lists the alternative structures (table formats, lookup types, offset sizes ...)
 	// found in the seed by the independent walker of formats.go.
 	Formats []string `json:"formats"`
@@ -28,7 +29,7 @@ type Seed struct {
 }
 
 // Kinds of mutation; the order is the order of the plan (spec/Decoder.tla, Kinds).
-var Kinds = []string{"orig", "trunc", "word", "flip", "ff", "inc", "dec", "pair", "drop"}
+var Kinds = []string{"orig", "trunc", "word", "flip", "ff", "inc", "dec", "pair", "dict", "drop"}
 
 // NumValues is the number of replacement value classes of kind "word".
 const NumValues = 10
@@ -105,6 +106,11 @@ func Apply(s *Seed, m Mutant) ([]byte, error) {
 		return out, nil
 	case "drop":
 		return dropTable(d, m.Idx)
+	case "dict":
+		if m.Idx >= s.NDict*NumDictValues {
+			return nil, fmt.Errorf("dict index %d out of plan", m.Idx)
+		}
+		return applyDict(d, m.Idx)
 	case "pair":
 		if m.Idx >= s.NGid*NumGidValues*NumTriggers {
 			return nil, fmt.Errorf("pair index %d out of plan", m.Idx)
@@ -128,6 +134,8 @@ func Count(s *Seed, kind string) int {
 		return s.NTab
 	case "pair":
 		return s.NGid * NumGidValues * NumTriggers
+	case "dict":
+		return s.NDict * NumDictValues
 	}
 	return 0
 }
